@@ -596,9 +596,58 @@ func runC06(c *eng.Ctx) {
 		if s == nil {
 			continue
 		}
+		kind := "random"
+		if k%8 == 5 || k%8 == 1 {
+			// history independence of the verdict: the set is built once while it is valid, then a
+			// REQUIRED dependency is removed and Build runs again. The verdict must be the one a
+			// fresh collection holding the same registrations gets (the permutations below are
+			// registered into fresh collections and carry no intermediate Build).
+			if hs := removeRequiredAfterBuild(rng, s); hs != nil {
+				s, kind = hs, "removed-after-build"
+				c.R.Count("removed_after_build_specs", 1)
+			}
+		}
 		c.R.Begin(idx)
-		check(idx, s, "random")
+		check(idx, s, kind)
 	}
+}
+
+// removeRequiredAfterBuild: spec + intermediate Build + Remove of an identity that some
+// registration requires (plain or keyed, not optional, not a group).
+func removeRequiredAfterBuild(rng *rand.Rand, s *Spec) *Spec {
+	if s.RebuildAfter > 0 {
+		return nil
+	}
+	for _, r := range s.Regs {
+		if r.Remove || r.Tail {
+			return nil
+		}
+	}
+	m := NewModel(s)
+	if m.Class != ClsOK {
+		return nil
+	}
+	var cands []IdentKey
+	seen := map[IdentKey]bool{}
+	for i := range m.Regs {
+		for _, b := range m.Regs[i].Binds {
+			if b.Kind == BindSingle && !b.Dep.Optional {
+				ik := IdentKey{b.Dep.Target, b.Dep.Key}
+				if !seen[ik] {
+					seen[ik] = true
+					cands = append(cands, ik)
+				}
+			}
+		}
+	}
+	if len(cands) == 0 {
+		return nil
+	}
+	sort.Slice(cands, func(i, j int) bool { return cands[i].Type+"\x00"+cands[i].Key < cands[j].Type+"\x00"+cands[j].Key })
+	ik := cands[rng.Intn(len(cands))]
+	out := &Spec{Regs: append([]Reg{}, s.Regs...), RebuildAfter: len(s.Regs)}
+	out.Regs = append(out.Regs, Reg{Remove: true, RmType: ik.Type, RmKey: ik.Key, Tail: true})
+	return out
 }
 
 func trimTo(s string, n int) string {
